@@ -356,7 +356,10 @@ Definition ts_str_eq (a b : str) : Z := b2z (js_str_strict_eq a b).
 (* 6. Process.println / Process.panic                                                                                   *)
 (* ------------------------------------------------------------------------------------------------------------------ *)
 (* WebAssembly: imported; loader.js reads the array through the exports __strLen / __strGet (array.get_s) and builds
-   String.fromCharCode(...codes): every code is taken modulo 2^16.  TypeScript: console.log(l) / throw Error(v). *)
+   String.fromCharCode(...codes) - since the loader fix of the long-string crash in chunks of 8192 codes that are
+   concatenated, which is the same map over the codes: every code is taken modulo 2^16.  (The argument-count limit of one
+   call, i.e. the crash on strings longer than ~10^5 bytes, was a property of the JavaScript engine, not of this model;
+   the long-string witness corpus/C04/008 runs on the real engines.)  TypeScript: console.log(l) / throw Error(v). *)
 Definition from_char_code (c : Z) : N := Z.to_N (c mod 65536).
 Definition wasm_host_string (s : str) : str := map (fun b => from_char_code (get_s b)) s.
 Definition ts_host_string (s : str) : str := s.
